@@ -15,7 +15,7 @@ pub const DEF: PropDef = PropDef {
     run,
     replay,
     level: "exploration",
-    rule: "cases = (protocol name, suite, backend pair, payload length per handshake message in 0..=max, transport script of up to 30 messages with direction interleaving, stateful/stateless per side, stateless nonce choice and delivery order, whether the peer's true static key is ALSO supplied up front where the pattern transmits it (pinning), how the PSKs reach each side: at build time, or by set_psk just before the first message that needs them on the initiator only / the responder only / both); static keys come from Builder::generate_keypair and ephemerals from the library's own OS RNG (recorded); non-trivial = session finished on both sides and at least one transport message delivered; distinct by (name, suite, payload length vector, transport script)",
+    rule: "cases = (protocol name, suite, backend pair, payload length per handshake message in 0..=max, transport script of up to 30 messages with direction interleaving, stateful/stateless per side, stateless nonce choice and delivery order, whether the peer's true static key is ALSO supplied up front where the pattern transmits it (pinning), how the PSKs reach each side: at build time, or by set_psk just before the first message that needs them on the initiator only / the responder only / both); static keys come from Builder::generate_keypair (in one session out of eight both sides hold the same pair) and ephemerals from the library's own OS RNG (recorded); non-trivial = session finished on both sides and at least one transport message delivered; distinct by (name, suite, payload length vector, transport script)",
     technique: "round-trip property over generated honest sessions with real randomness (proptest + name-space enumeration); pattern message counts from an independent table",
     assumptions: &["the number of messages per pattern is taken from the harness's own transcription of the specification's pattern table"],
     panic_is_violation: true,
@@ -84,6 +84,12 @@ pub fn oracle(c: &Case, acc: &mut Acc) -> CaseResult {
     if let Some((a, b)) = shaped_keys {
         ki = snow::Keypair { private: a.to_vec(), public: crate::refcrypto::dh_pub(c.suite.dh, &a).ok_or("shaped key")? };
         kr = snow::Keypair { private: b.to_vec(), public: crate::refcrypto::dh_pub(c.suite.dh, &b).ok_or("shaped key")? };
+    }
+    // one session in eight: both parties hold the SAME static key pair (a node talking to itself,
+    // a cluster-wide identity): still a consistent configuration
+    if (c.fill / 11) % 8 == 3 {
+        kr = snow::Keypair { private: ki.private.clone(), public: ki.public.clone() };
+        acc.label("static_keys:same_pair_on_both_sides");
     }
     let prologue = expand(c.seed, 7, c.prologue_len);
     // one session in 16 uses an all-zero first PSK, one in 16 an all-ones one
